@@ -34,8 +34,8 @@ STUB = ["choice of the running scenario thread (baton scheduler, line events in 
         "agents/model/collector are logging harness subclasses"]
 ASSUMPTIONS = ["population changes in the two round hooks, plus deletions from inside act of the acting agent itself or of an agent created before it (both have already acted), and creations from inside act: the newcomer is a live agent and is expected to handle and act last in that very step, as the pinned tree does",
                "harness subclasses (models/abm_agents.py) run atomically between pre-emption points"]
-FAULT_KINDS = ["preemption", "population_change_in_hook", "agent_deleted_inside_act"]
-PROBES = ["run_cancelled_from_inside", "many_scenario_threads", "class_path_manager_under_schedules", "unhandled_event_in_front_of_a_handled_one", "session_over_abm_managers", "session_over_several_abm_managers", "progress_widget", "model_run_again_with_other_run_spec", "deletion_inside_act", "creation_inside_act", "zero_stop_time", "negative_start", "decimal_dt", "empty_population", "collect_off", "threads_interleaved", "driven_steps"]
+FAULT_KINDS = ["act_raised", "preemption", "population_change_in_hook", "agent_deleted_inside_act"]
+PROBES = ["act_raised_half_way", "run_cancelled_from_inside", "many_scenario_threads", "class_path_manager_under_schedules", "unhandled_event_in_front_of_a_handled_one", "session_over_abm_managers", "session_over_several_abm_managers", "progress_widget", "model_run_again_with_other_run_spec", "deletion_inside_act", "creation_inside_act", "zero_stop_time", "negative_start", "decimal_dt", "empty_population", "collect_off", "threads_interleaved", "driven_steps"]
 EXHAUSTIVE = {"quick": False, "thorough": False}
 
 
@@ -110,6 +110,15 @@ def generate(spec):
             sc["acts"] = list(sc.get("acts", ())) + [{"k": k, "by": rng.randrange(0, sum(c for _, c in sc["init"])), "op": "stop_run"}]
         else:
             sc["pop"] = list(sc["pop"]) + [{"k": k, "where": "begin" if where == "act" else where, "op": "stop_run"}]
+    if mode in ("run", "scheduler_steps") and rng.random() < 0.1 and sum(c for _, c in scs[0]["init"]) > 0:
+        # an injected fault: one agent's act raises half-way in one step.  Whether the run ends there or carries on is not
+        # prescribed - but statistics are recorded for complete steps only
+        sc = scs[0]
+        nsteps = (sc["stop"] - sc["start"] + 1) * round(1 / sc["dt"])
+        sc["acts"] = [a for a in sc.get("acts", ()) if a["op"] != "stop_run"]
+        sc["pop"] = [p_ for p_ in sc["pop"] if p_["op"] != "stop_run"]
+        sc["acts"].append({"k": rng.randrange(1, nsteps + 1), "by": rng.randrange(0, sum(c for _, c in sc["init"])), "op": "raise"})
+        sc["act_fault"] = True
     # with the progress widget (Model.run(show_progress_widget=True) / run_scenarios(progress_bar=True)) a run is the same run
     widget = mode in ("run", "run_twice", "bptk_threads") and rng.random() < 0.3
     return {"property": PROPERTY, "mode": mode, "collect": collect, "scenarios": scs, "sched": sched, "widget": widget,
@@ -279,7 +288,30 @@ def execute(case):
         m.world.calls = []
         spr = round(1 / sc["dt"])
         try:
-            if mode == "run":
+            if sc.get("act_fault") and mode in ("run", "scheduler_steps"):
+                res.probe("act_raised_half_way")
+                try:
+                    if mode == "run":
+                        with _quiet():
+                            m.run(show_progress_widget=widget, collect_data=collect)
+                    else:
+                        for r in range(sc["start"], sc["stop"] + 1):
+                            for s in range(spr):
+                                try:
+                                    m.scheduler.run_step(m, r, s, None, collect)
+                                except RuntimeError:
+                                    pass        # the driver shrugs the failed step off and drives the next one
+                except RuntimeError:
+                    pass
+                failed = getattr(m.world, "failed_acts", [])
+                if failed:
+                    res.fault("act_raised")
+                    bad = [t_ for (_, _, t_) in failed if t_ in m.data_collector.agent_statistics]
+                    if bad:
+                        res.violate("C12.statistics-recorded-for-an-incomplete-step", {"time": bad[0], "failed_act_of_agent": failed[0][1], "mode": mode,
+                                                                                     "dt": sc["dt"], "collect": collect})
+                exp = None
+            elif mode == "run":
                 with _quiet():
                     m.run(show_progress_widget=widget, collect_data=collect)
                 exp = _expected(sc, collect)
